@@ -205,6 +205,22 @@ def _tmp():
     return _TMP
 
 
+def _needs_tmp(fn):
+    """checks that touch the file system work inside the directory of the running part, or make (and remove) their own"""
+    def wrapped(*a, **k):
+        global _TMP
+        if _TMP is not None:
+            return fn(*a, **k)
+        with _Tmp() as tmp:
+            _TMP = tmp
+            try:
+                return fn(*a, **k)
+            finally:
+                _TMP = None
+    wrapped.__name__, wrapped.__doc__ = fn.__name__, fn.__doc__
+    return wrapped
+
+
 def _write_target(writer, G, target, delim, enc):
     """run the writer on the requested kind of target; returns (raw bytes written, source()) where source() gives a
     fresh argument for the reader (a path or an open binary file) and cleanup()"""
@@ -255,6 +271,7 @@ def _split_rows(raw, enc):
 
 # =============================================================================================== C09
 
+@_needs_tmp
 def _c09_case(col, cls, history, nodetype, target, delim, enc):
     """write_snapshots / read_snapshots on the graph built by `history`"""
     built = _build(cls, history)
@@ -447,7 +464,11 @@ def log_model(directed, log):
 
 
 def _unclosed_two_instant_runs(M, stream):
-    """pairs having a maximal presence run of exactly two instants [s,s+1] without a '-' event at s+2 in the stream (D06)"""
+    """pairs having a maximal presence run of exactly two instants [s,s+1] without a '-' event at s+2 in the stream (D06).
+    Violations of C10.roundtrip carry d06=True when every mismatching pair is one of these (the written stream itself is
+    deficient); the informational d06_on_read=True marks stream mismatches where the written stream was complete and only
+    the closing '-' of two-instant runs is missing from the graph read back (the reader replays '-' with point adds and so
+    re-enters D06's region in the kernel)"""
     minus = set((M.key(a, b), q) for (a, b, op, q) in stream if op == '-')
     out = set()
     for k, S in M.pres.items():
@@ -457,6 +478,7 @@ def _unclosed_two_instant_runs(M, stream):
     return out
 
 
+@_needs_tmp
 def _c10_case(col, cls, history, nodetype, target, delim, enc):
     built = _build(cls, history)
     if built is None:
@@ -515,7 +537,8 @@ def _c10_case(col, cls, history, nodetype, target, delim, enc):
                 else:
                     causes.add('other_events_differ')
             col.violation('C10.roundtrip', cls, True, history, 'file %r: stream written %r, stream of the graph read back %r' % (text, stream, st2),
-                          kind='stream:' + '+'.join(sorted(causes)), d06=bool(unclosed) and bad <= unclosed, file_text=text, **ex)
+                          kind='stream:' + '+'.join(sorted(causes)), d06=bool(unclosed) and bad <= unclosed,
+                          d06_on_read=(causes == {'closing_minus_of_two_instant_run_lost'}), file_text=text, **ex)
         ts2 = [e[3] for e in st2]
         if ts2 != sorted(ts2):
             col.violation('C10.roundtrip', cls, True, history, 'stream of the graph read back is not chronological: %r' % (st2,), kind='stream_order', d06=False, **ex)
@@ -974,6 +997,7 @@ def _c18_compact(col, values, container):
         col.violation('C18.compact_timeslot', 'DynGraph', True, [], 'compact_timeslot(%r) = %r is not a strictly increasing bijection onto 0..k-1' % (vals, conv), kind='not_increasing_bijection', **ex)
 
 
+@_needs_tmp
 def _keys_outcome(fmt, directed, delim, items, eol):
     """None when keys=True reads the graph of the rank-substituted valid rows, else (symptom, detail)"""
     valid = [it['fields'] for it in items if it.get('fields') is not None]
@@ -989,12 +1013,7 @@ def _keys_outcome(fmt, directed, delim, items, eol):
     else:
         M = log_model(directed, [(r[0], r[1], r[2], rank[r[3]]) for r in valid])
     text = ''.join(it['text'] + eol for it in items)
-    own = None
-    tmp = _tmp()
-    if tmp is None:
-        own = _Tmp()
-        tmp = own.__enter__()
-    path = tmp.path()
+    path = _tmp().path()
     try:
         with open(path, 'wb') as f:
             f.write(text.encode('utf-8'))
@@ -1007,8 +1026,6 @@ def _keys_outcome(fmt, directed, delim, items, eol):
     finally:
         if os.path.exists(path):
             os.remove(path)
-        if own is not None:
-            own.__exit__()
     d = presence_diff(H, M, _universe(M, H), list(range(-2, len(stamps) + 3)), limit=6)
     if d:
         return ('presence', 'read_%s(file %r, delimiter=%r, keys=True): has_interaction%r = %r; with ranks %r the rows say %r (presence %r; differences %r)'
@@ -1201,19 +1218,13 @@ def c18_reader_noise_and_compaction(tier, seed):
 
 def replay(v):
     """re-run the check that produced violation `v` on the real code: 1 if it still fails, 0 otherwise"""
-    global _TMP
     r = v.get('repro') or {}
     fn = globals().get(r.get('fn', ''))
     if fn is None or not r.get('fn', '').startswith('_c'):
         print('parts_io.replay: no reproduction recipe in %r' % (v.get('check'),))
         return 0
     col = KindCollector('replay')
-    with _Tmp() as tmp:
-        _TMP = tmp
-        try:
-            fn(col, **r['args'])
-        finally:
-            _TMP = None
+    fn(col, **r['args'])
     same = [x for x in col.violations if x['check'] == v['check'] and x.get('kind') == v.get('kind')]
     if not same:          # the failure may have changed shape (e.g. another exception): same check is enough to count as still failing
         same = [x for x in col.violations if x['check'] == v['check']]
